@@ -234,13 +234,20 @@ func (e *lruEnv) step(lf lrufile.File, m *shadow, o lop) (*fail, stepInfo) {
 		}
 		m.file, m.off, m.lru, m.slot, m.hits, m.misses = other, 0, nil, nil, 0, 0
 	}
-	if e.c.Reader == "bytes-shared" {
+	switch e.c.Reader {
+	case "bytes-shared":
 		m.env = "|env"
 		for i := range e.shared {
 			pos := -1
 			if e.shared[i] != nil {
 				pos = len(e.files[i]) - e.shared[i].Len()
 			}
+			m.env += fmt.Sprintf(":%d", pos)
+		}
+	case "file":
+		m.env = "|env"
+		for _, h := range e.handles {
+			pos, _ := h.Seek(0, io.SeekCurrent)
 			m.env += fmt.Sprintf(":%d", pos)
 		}
 	}
@@ -327,6 +334,12 @@ func runLruCase(w *runner.W, c LruCase, r *runner.Rec) {
 	}
 	fresh := func() (lrufile.File, *shadow, *fail) {
 		e.shared = [2]*bytes.Reader{}
+		if c.Reader == "file" {
+			// the two handles live for the whole case: every replay starts with them rewound
+			for _, h := range e.handles {
+				h.Seek(0, io.SeekStart)
+			}
+		}
 		lf, err := lrufile.New(int64(c.Chunk), c.Entries)
 		if err != nil {
 			return nil, nil, &fail{"lru-new-error", err.Error()}
